@@ -447,6 +447,7 @@ pub fn history_labels(case: &Case, ctx: &mut CaseCtx) {
             Op::FrozenRemoveKey { .. } => "hist:remove_key_while_primary_read_only",
             Op::Close { .. } => "hist:close",
             Op::Open { .. } => "hist:open",
+            Op::CreateAgain { .. } => "hist:create_over_an_existing_name",
             Op::Restart => "hist:restart",
             Op::DbReadOnly { .. } => "hist:db_read_only",
             Op::CollReadOnly { .. } => "hist:coll_read_only",
